@@ -84,11 +84,11 @@ def c15_case_at(prop, group, A, B, va, vb, tins, tags):
     for t, ex in [(0.0, "A"), (1.0, "B")] + [(t, "geodesic") for t in tins] + [(-1e-9, "raise"), (1.0000001, "raise"), (float("nan"), "raise")]:
         plan.append(("slerp", t, ex))
         reqs.append(gen.req(dbg, "o", group, "interp_slerp", 0, A + B + [t]))
-    for t, ex in ((0.0, "A"), (1.0, "B"), (-0.5, "raise"), (2.0, "raise")):
+    for t, ex in ((0.0, "A"), (1.0, "B"), (-0.5, "raise"), (2.0, "raise"), (float("nan"), "raise"), (-5e-324, "raise"), (1.0000000000000002, "raise")):
         plan.append(("cubic", t, ex))
         reqs.append(gen.req(dbg, "o", group, "interp_cubic", 0, A + B + [t] + va + vb))
     for m in (1, 2, 3, 4):
-        for t, ex in ((0.0, "A"), (1.0, "B"), (-0.5, "raise")):
+        for t, ex in ((0.0, "A"), (1.0, "B"), (-0.5, "raise"), (float("nan"), "raise"), (1.0000000000000002, "raise"), (-5e-324, "raise")):
             plan.append(("smooth%d" % m, t, ex))
             reqs.append(gen.req(dbg, "o", group, "interp_smooth", 0, A + B + [t] + va + vb, [m]))
     for m in (0, 5, 7):
